@@ -12,7 +12,9 @@ RULE = ("random meshed MV nets (2-8 buses, 0-1 HV/MV trafo, line std types or ex
         "section fused by a closed bus-bus switch, optional second ext_grid on the slack bus), 1-6 loads with ZIP fractions on a 25 % "
         "grid (mixed with constant-power loads on deliberately shared buses), sgens, storages, shunts (vn_kv != bus vn, steps 0-3), "
         "wards, xwards, motors, asymmetric elements, 0-3 gens sharing buses with/without q limits, random scaling in {0,.5,1,1.25} "
-        "and in_service flags; options voltage_depend_loads on/off, numba on/off; plus DC power flows; "
+        "and in_service flags; options voltage_depend_loads on/off, numba on/off; plus DC power flows; plus nets meeting the guard of the numba "
+        "single-slack shortcut (one ext_grid, no gen, purely resistive shunts/wards, numba=True); plus two-step histories "
+        "(enforce_q_lims with a gen at its limit, then a recycled run after a set point change); "
         "non-trivial = some ppc bus carries >= 2 in-service bus elements")
 ASSUMPTIONS = [
     "the Newton solver is an oracle: its |V|, and the injections V*conj(Ybus*V) computed from net._ppc['internal'], are inputs of the model (rounded to 30 bits)",
@@ -299,6 +301,136 @@ def _dc_compare(ctx, x, rows, case, cands, model, net_sh):
         ctx.violation("spec", "DC power flow: nodal P balance at ppc bus %d violated by %.6g MW" % (k, val), case)
 
 
+def _single_slack_net(rng):
+    """a net that meets the guard of the fast pf_solution_single_slack routine (run_newton_raphson_pf.py:119-135):
+    one ext_grid, no gen / xward, no susceptance on any bus - but purely resistive shunts / wards (GS != 0)"""
+    net = pf.gen_net(rng, rich=rng.choice([0.6, 1.0]), two_eg_p=0.0, allow_xward=False, zip_p=0.0, n_gen=0, fuse_p=0.15)
+    if len(net.gen):
+        net.gen.drop(net.gen.index, inplace=True)
+    buses = [int(b) for b in net.bus.index[net.bus.vn_kv == 20.0]]
+    if len(net.shunt):
+        net.shunt["q_mvar"] = 0.0
+    if len(net.ward):
+        net.ward["qz_mvar"] = 0.0
+    if rng.random() < 0.7 or not (len(net.shunt) or len(net.ward)):
+        pp.create_shunt(net, rng.choice(buses + [int(net.ext_grid.bus.values[0])]), q_mvar=0.0, p_mw=pf.g8(rng, 1, 16))
+    if rng.random() < 0.4:
+        pp.create_ward(net, rng.choice(buses), ps_mw=pf.g8(rng, 0, 8), qs_mvar=pf.g8(rng, -4, 4), pz_mw=pf.g8(rng, 1, 8), qz_mvar=0.0)
+    return net
+
+
+def _recycle_after_qlims(ctx, rng):
+    """two-step history: a power flow with enforce_q_lims (a gen pinned at a limit), then a time-series like second step that
+    recycles the internal structures; the spec (nodal balance on the result tables) is evaluated after both steps"""
+    net = pf.gen_net(rng, rich=0.6, zip_p=0.0, allow_xward=False, n_gen=0, two_eg_p=0.0, fuse_p=0.1)
+    buses = [int(b) for b in net.bus.index[net.bus.vn_kv == 20.0]]
+    for _ in range(rng.randint(1, 3)):
+        lo = pf.g8(rng, -8, 0)
+        pp.create_gen(net, rng.choice(buses), p_mw=pf.g8(rng, 1, 16), vm_pu=rng.choice([1.0, 1.02, 1.03]),
+                      min_q_mvar=lo, max_q_mvar=lo + pf.g8(rng, 0, 8))
+    vm = {}
+    for i in net.gen.index:       # one setpoint per bus
+        net.gen.at[i, "vm_pu"] = vm.setdefault(int(net.gen.bus.at[i]), float(net.gen.vm_pu.at[i]))
+    if rng.random() < 0.7:
+        pp.create_load(net, rng.choice(buses), p_mw=pf.g8(rng, 0, 16), q_mvar=rng.choice([-1, 1]) * pf.g8(rng, 8, 40))
+    net_js = pp.to_json(net)
+    opts1 = {"numba": False, "enforce_q_lims": True, "voltage_depend_loads": False}
+    if _runpp(net, opts1):
+        ctx.count("recycle_step1_failed")
+        return
+    i = rng.choice(list(net.gen.index))
+    newp = float(net.gen.p_mw.at[i]) + pf.g8(rng, 1, 8)
+    rec = {"bus_pq": rng.random() < 0.5, "gen": True, "trafo": False}
+    net.gen.at[i, "p_mw"] = newp
+    try:
+        pp.runpp(net, recycle=rec)
+    except pp.LoadflowNotConverged:
+        ctx.count("recycle_step2_not_converged")
+        return
+    except Exception as e:
+        ctx.count("recycle_step2_raise:" + type(e).__name__)
+        return
+    case = {"net": net_js, "opts": opts1, "history": [{"runpp": opts1}, {"set": ["gen", int(i), "p_mw", newp]}, {"runpp": {"recycle": rec}}]}
+    lookup = net._pd2ppc_lookups["bus"]
+    x = pf.Ext()
+    x.lookup = lookup
+    x.nb = net._ppc["bus"].shape[0]
+    x.pbs = [int(b) for b in net.bus.index if not math.isnan(net.res_bus.vm_pu.at[b])]
+    cands, obs, F = _oracle_balance(ctx, net, x, case)
+    for k, which, val in cands:
+        ctx.violation("spec", "nodal %s balance at ppc bus %d violated by %.6g after enforce_q_lims followed by a recycled run" % (which.upper(), k, val), case)
+    lim = int(sum(1 for j in net.gen.index if abs(net.res_gen.q_mvar.at[j] - net.gen.max_q_mvar.at[j]) < 1e-6 or abs(net.res_gen.q_mvar.at[j] - net.gen.min_q_mvar.at[j]) < 1e-6))
+    ctx.case({"net_sha": hashlib.sha1(net_js.encode()).hexdigest(), "recycle": rec}, nontrivial=lim > 0)
+    ctx.count("recycle_after_qlims")
+    ctx.count("recycle_gens_at_limit_%d" % min(lim, 3))
+
+
+def _qlims_with_zip(ctx, rng, given=None):
+    """enforce_q_lims on nets with ZIP loads on generator buses: nodal balance on the result tables; a violation is the recorded
+    one iff a limited gen sits on a bus with voltage dependent demand (guard G01ql false) or the averaging guard fails, AND its size
+    is the one of the formulas C01_imbalance_qlim_fold / C01_imbalance_formula_p (exact rationals from the input)"""
+    import pandapower.pf.run_newton_raphson_pf as R
+    if given is None:
+        net = pf.gen_net(rng, rich=0.6, zip_p=0.8, allow_xward=False, n_gen=0, two_eg_p=0.0, fuse_p=0.1)
+        buses = [int(b) for b in net.bus.index[net.bus.vn_kv == 20.0]]
+        lb = [int(b) for b in net.load.bus.values if int(b) in buses] or buses
+        vm = {}
+        for _ in range(rng.randint(1, 3)):
+            b = rng.choice(lb) if rng.random() < 0.7 else rng.choice(buses)
+            lo = pf.g8(rng, -8, 0)
+            pp.create_gen(net, b, p_mw=pf.g8(rng, 1, 16), vm_pu=vm.setdefault(b, rng.choice([1.0, 1.02, 1.03])),
+                          min_q_mvar=lo, max_q_mvar=lo + pf.g8(rng, 0, 8), scaling=rng.choice([1.0, 1.0, 0.5]))
+        if rng.random() < 0.6:
+            pp.create_load(net, rng.choice(buses), p_mw=pf.g8(rng, 0, 16), q_mvar=rng.choice([-1, 1]) * pf.g8(rng, 8, 40))
+        opts = {"numba": False, "enforce_q_lims": True, "voltage_depend_loads": rng.random() < 0.85}
+    else:
+        net, opts = given
+    net_js = pp.to_json(net)
+    rec = []
+    orig = R.ppci_to_pfsoln
+
+    def spy(ppci, options, limited_gens=None):
+        rec.append([] if limited_gens is None else [int(i) for i in limited_gens])
+        return orig(ppci, options, limited_gens)
+
+    R.ppci_to_pfsoln = spy
+    try:
+        err = _runpp(net, opts)
+    finally:
+        R.ppci_to_pfsoln = orig
+    if err or "V" not in net._ppc["internal"]:
+        ctx.count("qlimzip_" + (err or "bypassed"))
+        return
+    x = pf.extract(net)
+    case = _case_json(net_js, opts)
+    cands, obs, F = _oracle_balance(ctx, net, x, case)
+    limited = sorted(set(rec[-1])) if rec else []
+    fold = {}
+    for r in limited:
+        g = x.gens[r]
+        pl, ql = fold.get(g["bus"], (0.0, 0.0))
+        fold[g["bus"]] = (pl + g["pg"], ql + float(net._ppc["internal"]["gen"][r, pf.QG]))
+    for k, which, val in cands:
+        pl, ql = fold.get(k, (0.0, 0.0))
+        pred = pf.py_fold_prediction(x, k, cq.round_bits(Fraction(x.vs[k]), 40), pl, ql)[0 if which == "p" else 1]
+        t = pf.py_zip_terms(x, k)
+        zi = (0, 1) if which == "p" else (2, 3)
+        amt = pl if which == "p" else ql
+        g_fold = (not x.vdl) or amt == 0 or (t["z"][zi[0]] == 0 and t["z"][zi[1]] == 0)            # G01ql for this quantity
+        g_avg = pf.py_guards(x, k)[0 if which == "p" else 1]                                     # G01p / G01q
+        what = "nodal %s balance at ppc bus %d violated by %.6g with enforce_q_lims (formula predicts %.6g; limited generation at the bus %.6g)" % (
+            which.upper(), k, val, pred, amt)
+        if abs(pred - val) <= 3 * TOL_S and not (g_fold and g_avg):
+            kind = "C01-qlim-zip" if not g_fold else "C01-zip-average"
+            ctx.violation(kind, what, case)
+            ctx.count("known:" + kind)
+        else:
+            ctx.violation("spec", what, case)
+    ctx.case({"net_sha": hashlib.sha1(net_js.encode()).hexdigest(), "opts": opts, "qlims": True}, nontrivial=len(limited) > 0)
+    ctx.count("qlims_with_zip")
+    ctx.count("qlims_with_zip_limited_%d" % min(len(limited), 3))
+
+
 def _corpus(ctx):
     import glob, os
     out = []
@@ -319,6 +451,8 @@ def run(ctx, only=None):
             ctx.count("corpus")
             if opts.get("dc"):
                 _dc_oracle(ctx, rng, dterms, dpend, net=net)
+            elif opts.get("enforce_q_lims"):
+                _qlims_with_zip(ctx, rng, given=(net, opts))
             else:
                 _prepare(ctx, net, opts, terms, pend)
         n = ctx.n(60, 1500)
@@ -333,10 +467,25 @@ def run(ctx, only=None):
                 k += 1
         for _ in range(ctx.n(16, 300)):
             _dc_oracle(ctx, rng, dterms, dpend)
+        # the numba single-slack shortcut with purely resistive shunts / wards (full correspondence + oracle)
+        k = 0
+        for _ in range(3 * ctx.n(10, 150)):
+            if k >= ctx.n(10, 150):
+                break
+            if _prepare(ctx, _single_slack_net(rng), {"numba": True, "voltage_depend_loads": False, "calculate_voltage_angles": True},
+                        terms, pend):
+                k += 1
+                ctx.count("single_slack_guard_nets")
+        for _ in range(ctx.n(20, 300)):
+            _recycle_after_qlims(ctx, rng)
+        for _ in range(ctx.n(25, 300)):
+            _qlims_with_zip(ctx, rng)
     else:
         for net, opts in only:
             if opts.get("dc"):
                 _dc_oracle(ctx, rng, dterms, dpend, net=net)
+            elif opts.get("enforce_q_lims"):
+                _qlims_with_zip(ctx, rng, given=(net, opts))
             else:
                 _prepare(ctx, net, opts, terms, pend, sample=True)
     import time
